@@ -857,9 +857,11 @@ def rule_derives(ctx):
         flt = [n for f_ in fam_ for n in walk(f_.body) if n['k'] == 'mcall' and n['method'] == 'filter']
         good = False
         for n in flt:
-            lits = {x['lit']['v'] for x in walk(n['args'][0]) if x['k'] == 'lit' and x['lit']['lk'] == 'str'}
+            lits = {x['lit']['v'] for x in walk(n['args'][0]) if isinstance(x.get('lit'), dict) and x['lit'].get('lk') == 'str'}
             neg = any(x['k'] == 'unary' and x['op'] == '!' for x in walk(n['args'][0]))
-            cont = any(x['k'] == 'mcall' and x['method'] == 'contains' for x in walk(n['args'][0]))
+            # membership in a slice of names, or a pattern test against the names (`!matches!(d, "Serialize" | "Deserialize")`)
+            cont = any((x['k'] == 'mcall' and x['method'] == 'contains') or (x['k'] == 'macro' and x['name'].split('::')[-1] == 'matches') or
+                       (x['k'] == 'match' and x.get('src') != 'match') for x in walk(n['args'][0]))
             if {'Serialize', 'Deserialize'} <= lits and neg and cont:
                 good = True
         if good:
